@@ -110,6 +110,11 @@ func (e *Env) End(budget time.Duration, match func(g sched.GInfo) bool) []sched.
 	} else {
 		ctl.Stop()
 	}
+	if !e.DriversDone() {
+		// calls that never returned keep their goroutines for ever: do not wait for them
+		budget = 100 * time.Millisecond
+		e.St.Stuck++
+	}
 	left := sched.WaitGone(e.self, budget, match)
 	runtime.GC()
 	return left
@@ -193,7 +198,7 @@ func runDriver(sr scenarioRunner, args map[string]string) {
 	if mode == "c" && sr.reps > 0 {
 		reps = sr.reps
 	}
-	for i := 0; i < n; i++ {
+	for i := 0; i < n && st.Stuck < 12; i++ { // a dozen executions whose calls never returned are evidence enough
 		sc := sr.gen(rng, profile, mode)
 		eseed := rng.Int63()
 		for k := 0; k < reps; k++ {
